@@ -458,6 +458,10 @@ def gen_tla(path):
     from . import perturb as _pt
     def _spl(tab):
         return [i + 1 for i, v in enumerate(tab) if v["std"] != 99 and len(_pt.layout_tokens(v["text"].replace("{L}", "10").replace("{N}", "nm"))) >= 2]
+    def _strspl(tab):
+        return [i + 1 for i, v in enumerate(tab) if v["std"] != 99 and _pt.long_string_index(_pt.layout_tokens(v["text"])) is not None]
+    A("StrSplitS == " + tla_set(_strspl(SIMPLE)))
+    A("StrSplitDecl == " + tla_set(_strspl(DECL)))
     A("SplitS == " + tla_set(_spl(SIMPLE)))
     A("SplitDecl == " + tla_set(_spl(DECL)))
     A("SplitUse == " + tla_set(_spl(USE)))
